@@ -767,20 +767,43 @@ partial def parseSrcStmt : List String → Option (Src.Stmt × List String)
       | [] => none
   | "XD" :: r => some (.exitDo, r)
   | "XF" :: r => some (.exitFor, r)
+  | "XS" :: r => some (.exitSub, r)
   | "E" :: r => some (.end_, r)
+  | "C" :: p :: n :: r => do
+      let p ← p.toNat?; let n ← n.toNat?
+      let (args, r1) ← parseSrcArgs n r
+      pure (.call p args, r1)
   | _ => none
+
+partial def parseSrcArgs : Nat → List String → Option (List Src.Arg × List String)
+  | 0, r => some ([], r)
+  | n + 1, "R" :: v :: r => do let v ← v.toNat?; let (as, r1) ← parseSrcArgs n r; pure (.ref v :: as, r1)
+  | n + 1, "X" :: r => do let (e, r1) ← parseSrcExpr r; let (as, r2) ← parseSrcArgs n r1; pure (.val e :: as, r2)
+  | _, _ => none
 end
 
+partial def parseSrcProcs : Nat → List String → Option (List Src.Proc × List String)
+  | 0, r => some ([], r)
+  | n + 1, np :: nl :: r => do
+      let np ← np.toNat?; let nl ← nl.toNat?
+      let (body, r1) ← parseSrcBlock r
+      let (ps, r2) ← parseSrcProcs n r1
+      pure (⟨np, nl, body⟩ :: ps, r2)
+  | _, _ => none
+
 def handleSrc : List String → Option String
-  | fuel :: nv :: r => do
-      let fuel ← fuel.toNat?; let nv ← nv.toNat?
-      let (prog, rest) ← parseSrcBlock r
+  | fuel :: nv :: np :: r => do
+      let fuel ← fuel.toNat?; let nv ← nv.toNat?; let np ← np.toNat?
+      let (procs, r0) ← parseSrcProcs np r
+      let (prog, rest) ← parseSrcBlock r0
       if !rest.isEmpty then none
-      pure (match Src.run fuel nv prog with
+      pure (match Src.run procs fuel nv prog with
         | none => "fuel"
         | some res =>
           " ".intercalate (res.out.map toString) ++ " | " ++
-          (match res.sig with | .normal => "end" | .ended => "end" | .exitDo => "exitdo" | .exitFor => "exitfor" | .trap c => "trap " ++ c))
+          (match res.sig with
+            | .normal => "end" | .ended => "end" | .exitDo => "exitdo" | .exitFor => "exitfor" | .exitSub => "exitsub"
+            | .trap c => "trap " ++ c))
   | _ => none
 
 def handle (toks : List String) : String :=
